@@ -18,6 +18,16 @@ CHECKS = {
         "is_in_same_sandbox(start, start+n-1) on the same start value and the same extent n that the sink uses, with n proven non-wrapping. Decides the structural necessary condition for all "
         "start addresses and extents at once; it does not execute anything and does not decide the backend predicate itself.",
    note="trusted: backend contract for impl_is_in_same_sandbox/impl_get_total_memory; clang front end; extractor and engine. strlen on sandbox memory is an accepted idiom (assumption recorded in evidence).", ref="3/C10"),
+ "C05": dict(level="other", technique="path-sensitive structural analysis of every pointer instantiation of + - [] and derived operators; stride constants compared with an independent ABI model (custom checker over clang AST facts)",
+   text="For every pointer instantiation (11 pointee types x index types x tainted/tainted_volatile, foreign-ABI and host-ABI backends) the produced address must be the value covered by dominating abort checks "
+        "base != null and is_in_same_sandbox(base, target), with target - base == +/- s*index where s is the guest size of the pointee computed by the checker's own ABI model; op=, ++/-- are checked to be wired to the "
+        "matching binary operator. Decides the structural necessary conditions for all bases and indices; the index*stride wrap is a recorded known finding.",
+   note="trusted: backend contract for impl_is_in_same_sandbox; clang front end; ABI model in sa/abi.py (natural alignment, ILP32-like guest)", ref="3/C05"),
+ "C16": dict(level="other", technique="structural operator-wiring analysis over instantiated operator bodies (same opcode, operand order and operand types as the plain expression)",
+   text="For every instantiated member/free/unary/compound/increment operator on numeric wrappers (tainted, tainted_volatile, plain on either side) the returned wrapper's value term must be exactly "
+        "value(lhs) OP value(rhs) with OP the operator being defined; compound and ++/-- must be defined through the matching binary operator and return the right object. "
+        "Equality of opcode, operand order and operand types implies equality of value for all inputs, so no values are sampled.",
+   note="trusted: clang's resolution of built-in operators and implicit conversions; result *types* are pinned by the witness corpus (W-C16-types) when enabled", ref="3/C16"),
 }
 NA_REASON = "check under construction in this revision (see DESIGN.md section 3 for the planned static rules); not claimed yet"
 
